@@ -1,7 +1,7 @@
 (* uriIsUnreserved (UriNormalizeBase.c), translated from the source: one case group (returning URI_TRUE),
    exactly the unreserved characters, which Model/Normalize.v writes as is_unreserved_code. *)
 From Coq Require Import List NArith Bool Lia String.
-From UP Require Import Base.Chars Base.Regex Base.Atoms Generated.SwitchTables Proofs.SwitchRefine Model.Normalize.
+From UP Require Import Base.Chars Base.Regex Base.Atoms Generated.SwitchTables Proofs.SwitchBase Model.Normalize.
 Import ListNotations.
 Local Open Scope N_scope.
 
